@@ -44,7 +44,8 @@ pub mod probes {
     pub const PTR_READ_UNPROTECTED: usize = 31;
     pub const PAYALL_ENTER: usize = 32;
     pub const PAYALL_EXIT: usize = 33;
-    pub const NAMES: [&str; 34] = [
+    pub const HELP_REPLACEMENT_LOADED: usize = 34;
+    pub const NAMES: [&str; 35] = [
         "fast_confirmed",
         "fast_changed_returned",
         "fast_changed_paid",
@@ -79,6 +80,7 @@ pub mod probes {
         "ptr_read_unprotected",
         "payall_enter",
         "payall_exit",
+        "help_replacement_loaded",
     ];
 }
 
